@@ -1,0 +1,91 @@
+//go:build verif
+
+// Contracts for the deductive verifier in /verif (govc). Comment-only.
+// Pattern for every codec (C14): the encoder ensures enc(output, x) for a shared predicate enc,
+// the decoder ensures "for every x: enc(input, x) ==> result == x"; the round trip is the
+// composition of the two contracts.
+
+package encoding
+
+//@ # ---- scalar helpers -------------------------------------------------------------------------------
+//@ func ZigZagEncode
+//@   prop C14
+//@   ensures[small_magnitudes_get_small_codes] (x >= 0 ==> result == uint64(x) << 1) && (x < 0 ==> result == (uint64(-(x + 1)) << 1) | 1)
+//@ end
+//@ func ZigZagDecode
+//@   prop C14
+//@   ensures[inverse_of_encode] ZigZagEncode(result) == v
+//@ end
+//@ lemma zigzag_roundtrip bv prop C14: all(x, "int64", ZigZagDecode(ZigZagEncode(x)) == x) && all(v, "uint64", ZigZagEncode(ZigZagDecode(v)) == v)
+//@ lemma high_low_bits_roundtrip bv prop C14: all(x, "uint32", ValueWithHighLowBits(uint32(HighBits(x)) << 16, LowBits(x)) == x)
+//@ func Uint32MinWidth
+//@   prop C14
+//@   ensures[width_holds_the_value] result >= 1 && result <= 4 && (result < 4 ==> value >> (uint(result) * 8) == 0)
+//@   ensures[width_is_minimal] result > 1 ==> value >> (uint(result - 1) * 8) != 0
+//@ end
+
+//@ # ---- fixed-width offset table ---------------------------------------------------------------------
+//@ # entry i of a table at byte position base: the low `width` bytes of v, little endian
+//@ # k * w for the widths that occur (1..4), without a general product
+//@ pure mulw(k int, w int) int = ite(w == 1, k, ite(w == 2, k * 2, ite(w == 3, k * 3, ite(w == 4, k * 4, 0))))
+//@ pure foAt(bytes map[int]byte, base int, width int, i int, v int) bool = (width > 0 ==> bytes[base + mulw(i, width)] == uint8(uint32(v))) && (width > 1 ==> bytes[base + mulw(i, width) + 1] == uint8(uint32(v) >> 8)) && (width > 2 ==> bytes[base + mulw(i, width) + 2] == uint8(uint32(v) >> 16)) && (width > 3 ==> bytes[base + mulw(i, width) + 3] == uint8(uint32(v) >> 24))
+//@ predicate foEncOK(e *FixedOffsetEncoder) bool = e.max >= 0 && e.max <= 4294967295 && len(e.values) <= 1099511627776 && forall(i, 0, len(e.values), e.values[i] >= 0 && e.values[i] <= e.max)
+//@ func FixedOffsetEncoder.Reset
+//@   prop C14
+//@   modifies e.max, e.values
+//@   ensures[pooled_reuse_starts_clean] e.max == 0 && len(e.values) == 0
+//@ end
+//@ func FixedOffsetEncoder.Add
+//@   prop C14
+//@   requires foEncOK(e) && v <= 4294967295 && len(e.values) < 1099511627776
+//@   may_panic
+//@   modifies e.values, e.max
+//@   ensures[appends_value] len(e.values) == old(len(e.values)) + 1 && e.values[old(len(e.values))] == v && forall(i, 0, old(len(e.values)), e.values[i] == old(e.values[i]))
+//@   ensures[max_covers_all_values] foEncOK(e)
+//@   ensures v >= 0
+//@ end
+//@ func FixedOffsetEncoder.width
+//@   prop C14
+//@   ensures result == Uint32MinWidth(uint32(e.max))
+//@ end
+//@ func FixedOffsetEncoder.Write
+//@   prop C14
+//@   arith math
+//@   uses opt.abs
+//@   requires writer != nil && foEncOK(e) && writer.n >= 0 && writer.n <= 72057594037927936
+//@   modifies writer.out, writer.n
+//@   ensures[empty_table_writes_nothing] len(e.values) == 0 ==> (result == nil && writer.n == old(writer.n))
+//@   ensures[header] (result == nil && len(e.values) > 0) ==> (writer.out[old(writer.n)] == uint8(Uint32MinWidth(uint32(e.max))) && forall(q, old(writer.n) + 1, old(writer.n) + 1 + uvarint_len(uint64(len(e.values))), writer.out[q] == uvarint_byte(uint64(len(e.values)), q - (old(writer.n) + 1))))
+//@   ensures[size] (result == nil && len(e.values) > 0) ==> writer.n == old(writer.n) + 1 + uvarint_len(uint64(len(e.values))) + mulw(len(e.values), Uint32MinWidth(uint32(e.max)))
+//@   ensures[entries] (result == nil && len(e.values) > 0) ==> forall(i, 0, len(e.values), foAt(writer.out, old(writer.n) + 1 + uvarint_len(uint64(len(e.values))), Uint32MinWidth(uint32(e.max)), i, e.values[i]))
+//@   ensures[earlier_output_untouched] all(i, (i >= 0 && i < old(writer.n)) ==> writer.out[i] == old(writer.out)[i])
+//@   loop 1 invariant rangeindex >= -1 && rangeindex < len(e.values) && width >= 1 && width <= 4 && sizeFlagWidth >= 1 && sizeFlagWidth <= 10 && writer.n == old(writer.n) + 1 + sizeFlagWidth + mulw(rangeindex + 1, width)
+//@   loop 1 invariant writer.out[old(writer.n)] == uint8(width)
+//@   loop 1 invariant forall(q, old(writer.n) + 1, old(writer.n) + 1 + sizeFlagWidth, writer.out[q] == uvarint_byte(uint64(len(e.values)), q - (old(writer.n) + 1)))
+//@   loop 1 invariant forall(i, 0, rangeindex + 1, foAt(writer.out, old(writer.n) + 1 + sizeFlagWidth, width, i, e.values[i]))
+//@   loop 1 invariant all(i, (i >= 0 && i < old(writer.n)) ==> writer.out[i] == old(writer.out)[i])
+//@ end
+//@ # glue for the round trip: every value below the encoder's max fits the width the encoder chose,
+//@ # which is the premise under which Get returns the stored value
+//@ lemma width_fits_every_value bv prop C14: all(m, "int", all(v, "int", (v >= 0 && v <= m && m <= 4294967295) ==> (Uint32MinWidth(uint32(m)) < 4 ==> v >> (uint(Uint32MinWidth(uint32(m))) * 8) == 0)))
+//@ # decoder: whatever table the encoder wrote (header + entries, see FixedOffsetEncoder.Write) is parsed back
+//@ func FixedOffsetDecoder.Unmarshal
+//@   prop C14
+//@   modifies d.offsetsBlock, d.width, d.size
+//@   ensures[parses_what_write_wrote] all(n, "uint64", (len(data) >= 2 && data[0] <= 4 && n <= 1099511627776 && len(data) <= 72057594037927936 && uvarint_len(n) <= len(data) - 1 && forall(q, offset(data) + 1, offset(data) + 1 + uvarint_len(n), contents(data)[q] == uvarint_byte(n, q - (offset(data) + 1))) && 1 + uvarint_len(n) + mulw(int(n), int(data[0])) <= len(data)) ==> (err == nil && d.width == int(data[0]) && d.size == int(n) && contents(d.offsetsBlock) == contents(data) && offset(d.offsetsBlock) == offset(data) + 1 + uvarint_len(n) && len(d.offsetsBlock) == mulw(int(n), d.width) && contents(left) == contents(data) && offset(left) == offset(data) + 1 + uvarint_len(n) + mulw(int(n), d.width) && len(left) == len(data) - (1 + uvarint_len(n) + mulw(int(n), d.width))))
+//@   ensures[short_input_is_an_error] len(data) < 2 ==> err != nil
+//@   ensures[width_is_a_byte] d.width >= 0 && d.width <= 255
+//@   ensures[pooled_reuse_starts_clean] err != nil ==> len(d.offsetsBlock) == 0
+//@ end
+//@ func FixedOffsetDecoder.Get
+//@   prop C14
+//@   requires d.width >= 0
+//@   ensures[reads_back_entry] all(v, "int", (index >= 0 && index <= 1099511627776 && d.width >= 1 && d.width <= 4 && mulw(index, d.width) + d.width <= len(d.offsetsBlock) && v >= 0 && v <= 4294967295 && (d.width < 4 ==> v >> (uint(d.width) * 8) == 0) && foAt(contents(d.offsetsBlock), offset(d.offsetsBlock), d.width, index, v)) ==> (result0 == v && result1))
+//@   ensures[out_of_range_is_absent] (d.width >= 1 && d.width <= 4 && index >= -1099511627776 && (index < 0 || (index <= 1099511627776 && mulw(index, d.width) >= len(d.offsetsBlock)))) ==> !result1
+//@   ensures !result1 ==> result0 == 0
+//@   ensures result0 >= 0
+//@ end
+//@ func FixedOffsetDecoder.Size
+//@   prop C14
+//@   ensures (d.width == 0 ==> result == 0) && (d.width != 0 ==> result == d.size)
+//@ end
